@@ -105,6 +105,10 @@ def check_words(base_kind, maxlen):
 
 
 # ------------------------------------------------------------------ (ii) call sequences
+_PARENT = np.array([1.0, 2.0, 5.0, 7.0])
+_PARENT2 = np.array([[1.0, 3.0], [2.0, 9.0]])
+
+
 def arg_menu():
     a1 = np.array([1.0, 2.0])
     return [((1.0,), {}), ((float("1.0"),), {}), ((2.0,), {}), ((a1,), {}), ((np.array([1.0, 2.0]),), {}),
@@ -114,7 +118,10 @@ def arg_menu():
             ((1.0, 2), {}), ((1.0, 3), {}), ((2.0, 2), {}),  # second positional argument (a prefix of it is another call)
             ((np.array([2.0, 2.0]),), {}), ((np.array([]),), {}),  # arrays that compare "all equal" to a scalar
             (({"x": np.array([1.0, 2.0])},), {}), (({"x": np.array([1.0, 2.0])},), {}), (({"x": np.array([1.0, 3.0])},), {}),
-            (({"x": np.array([])},), {})]  # dicts of arrays (what fill.numpy hands to a quantity): equal, different, empty
+            (({"x": np.array([])},), {}),  # dicts of arrays (what fill.numpy hands to a quantity): equal, different, empty
+            # views of one parent buffer: same dtype, shape and strides, different offset (successive chunks / columns)
+            ((_PARENT[0:2],), {}), ((_PARENT[2:4],), {}), ((_PARENT2[:, 0],), {}), ((_PARENT2[:, 1],), {}),
+            (({"x": _PARENT[0:2]},), {}), (({"x": _PARENT[2:4]},), {})]
 
 
 def same_value(a, b):
